@@ -1,0 +1,31 @@
+//go:build verif
+
+package limiter
+
+import "sync/atomic"
+
+// VerifPoint is a schedule point call-back installed by the verification harness (build tag verif only).
+var VerifPoint func(point string)
+
+func verifPoint(point string) {
+	if f := VerifPoint; f != nil {
+		f(point)
+	}
+}
+
+// VerifInFlight returns the limiter's in-flight gauge.
+func (l *DefaultLimiter) VerifInFlight() int64 {
+	return atomic.LoadInt64(l.inFlight)
+}
+
+// VerifBacklogLen returns the number of elements in the backlog.
+func (l *QueueBlockingLimiter) VerifBacklogLen() int {
+	return int(l.backlog.len())
+}
+
+// VerifOrdering returns the ordering installed in the backlog.
+func (l *QueueBlockingLimiter) VerifOrdering() QueueOrdering {
+	l.backlog.mu.RLock()
+	defer l.backlog.mu.RUnlock()
+	return l.backlog.ordering
+}
